@@ -107,6 +107,10 @@ DeleteEffect(sl, P) ==
 StoreEffect(sl, m) ==
   [c \in Ctx |-> [k \in Code |-> IF c \in DOMAIN m.vals /\ k = m.k THEN m ELSE sl[c][k]]]
 
+(* the ghost: the message that arrived last, per (ctx, code) - by definition, not by what the library does *)
+LastEffect(la, m) ==
+  [c \in Ctx |-> [k \in Code |-> IF c \in DOMAIN m.vals /\ k = m.k THEN m ELSE la[c][k]]]
+
 -----------------------------------------------------------------------------
 (* The contract (property-level): what a read of (c, codes) may return at clock t (clock put back by sk in
    total), given the most recently received messages `la`.  Appendix A C14 a/b/c/e, J7; a fall-back to an
@@ -156,7 +160,7 @@ ReceiveAt(k, f, vals, life, t) ==
   /\ t >= 0
   /\ LET m == Msg(k, f, vals, t, life, nrx + 1, t + SkewAt(t)) IN
        /\ slot' = StoreEffect(slot, m)
-       /\ last' = StoreEffect(last, m)
+       /\ last' = LastEffect(last, m)
   /\ now' = t
   /\ skew' = SkewAt(t)
   /\ nrx' = nrx + 1
